@@ -16,6 +16,19 @@ let rec handler r =
   | "fe" -> let _ = integer r in handler r
   (* a history of scalar-harmonic requests: boost's Y_lm is a function argument of the model, nothing to compute here *)
   | "yhist" -> put_w "-"
+  | "vshhist" -> put_w "-"
+  | "roundhist" -> let n = integer r in
+      (* a history of Round requests in one process: 0 scalar, 1 Vector, 2 Matrix; each is a table for the model *)
+      let rec reqs k = if k = 0 then [] else
+        let kind = integer r in let d = integer r in
+        let t = (match kind with 0 -> [[num r]] | 1 -> [list r] | _ -> table r) in
+        (kind, (zi d, t)) :: reqs (k - 1) in
+      let qs = reqs n in
+      put_res (fun outs -> List.iter2 (fun (kind, _) m -> match kind with
+          | 0 -> List.iter (List.iter put_f) m
+          | 1 -> List.iter put_fl m
+          | _ -> put_i (List.length m); List.iter put_fl m) qs outs)
+        (round_run fops (List.map snd qs))
   | "sign" -> let x = num r in put_i (int_of_z (g_Sign fops x))
   | "sign2" -> let x = num r in let y = num r in put_f (g_Sign2 fops x y)
   | "step" -> let x = num r in put_f (g_StepFunction fops x)
